@@ -17,6 +17,22 @@ def norm(expr: ast.AST) -> str:
     return ast.unparse(expr)
 
 
+def clone(node):
+    """Structural copy of an AST (fields and positions only; parent links are not followed)."""
+    if isinstance(node, ast.AST):
+        new = node.__class__()
+        for name in node._fields:
+            if hasattr(node, name):
+                setattr(new, name, clone(getattr(node, name)))
+        for name in ("lineno", "col_offset", "end_lineno", "end_col_offset"):
+            if hasattr(node, name):
+                setattr(new, name, getattr(node, name))
+        return new
+    if isinstance(node, list):
+        return [clone(x) for x in node]
+    return node
+
+
 def is_log_call(stmt: ast.stmt) -> bool:
     """``LOG.debug(...)`` style statements (and ``warn(...)``) carry no semantics for the rules."""
     if isinstance(stmt, ast.Expr) and isinstance(stmt.value, ast.Call):
@@ -111,13 +127,13 @@ class Defs:
                     val = defs.single(node.id)
                     if val is not None:
                         sub = Inliner(self.budget - 1)
-                        return sub.visit(copy.deepcopy(val))
+                        return sub.visit(clone(val))
                 return node
 
             def visit_Lambda(self, node: ast.Lambda) -> ast.AST:  # noqa: N802
                 return node
 
-        return Inliner(depth).visit(copy.deepcopy(expr))
+        return Inliner(depth).visit(clone(expr))
 
     def expanded(self, expr: ast.AST, depth: int = 8) -> str:
         return norm(self.expand(expr, depth))
